@@ -83,6 +83,7 @@ pxgstrf_pruneL(
 	    }
 	    
     	    if ( do_prune ) {
+		SLU_MT_VERIF_EVENT(SLU_EV_PRUNE_BEGIN, -1, jcol, irep, 0, Glu);
 
 	     	/* Do a quicksort-type partition */
 	        while ( kmin <= kmax ) {
@@ -102,7 +103,9 @@ pxgstrf_pruneL(
 	        } /* while */
 
 	        xprune[irep] = kmin;	/* Pruning */
+		SLU_MT_VERIF_EVENT(SLU_EV_PRUNE_MID, -1, jcol, irep, 0, Glu);
 		ispruned[irep] = 1;
+		SLU_MT_VERIF_EVENT(SLU_EV_PRUNE_END, -1, jcol, irep, 0, Glu);
 
 #ifdef CHK_PRUNE
 if (irep >= LOCOL && irep >= HICOL && jcol >= LOCOL && jcol <= HICOL)	
